@@ -15,12 +15,14 @@ from workflows.events import (
 
 class Start0(StartEvent):
     uid: int = 0
+    path: str = "r"
 
 
 class _U(Event):
     uid: int = -1
     parent: int = -1
     src: str = ""
+    path: str = ""
 
 
 class E0(_U):
@@ -81,6 +83,7 @@ class Fin(HumanResponseEvent):
     uid: int = -1
     parent: int = -1
     src: str = ""
+    path: str = ""
 
 
 class Ask0(InputRequiredEvent):
